@@ -83,6 +83,12 @@ def sites(F, reach):
 
 
 def run(F, R, ctx):
+    _run(F, R, ctx)
+    float_cast_rule(F, R)
+    both_operands_rule(F, R)
+
+
+def _run(F, R, ctx):
     R.rule("C10.a", "in the script-reachable numeric surface (primitives::numbers, VM arithmetic arms and helpers, "
                     "const evaluation, numeric comparison) every overflow-capable operation on a signed machine integer "
                     "is a checked_*/overflowing_* form, or a division guarded by an explicit (MIN, -1) test in the same "
@@ -205,3 +211,121 @@ def canonical_rule(F, R):
                    "treat it as different from the same number as a fixnum" % (fn.short(), e[3]), fn.loc(e[3]),
                    sample={"verdict": why})
     R.floor("C10.d", "direct BigNum constructions", n, 10)
+
+
+def float_cast_rule(F, R):
+    from . import c07
+    R.rule("C10.f", "a float is turned into a machine integer (`as isize/i64/i32`, which saturates silently) in script-reachable "
+                    "code only under a range test of that float: the cast is dominated by a branch whose condition is an "
+                    "ordering comparison (<, <=, >, >=) computed from the float itself, or the float is the square root of a "
+                    "machine integer (bounded by construction). Otherwise `exact`, parity and integer/float equality give "
+                    "answers for |x| >= 2^63 that are not the exact ones")
+    reach = shared.script_reach(F)
+    n = 0
+    for name, fn in sorted(F.fns.items()):
+        if name not in reach or not name.startswith("steel::") or "::jit2::" in name:
+            continue
+        casts = [(i, e) for i, _, e in fn.events("cast") if e[1] == "FloatToInt" and not e[5] and
+                 re.match(r"i(size|64|32|128)$", e[3])]
+        if not casts:
+            continue
+        maps = c07._backward(fn)
+        dom = fn.dominators()
+        cmp_ops = {}
+        for blk2 in fn.blocks:
+            for e in blk2["e"]:
+                if e[0] == "der" and len(e) >= 5 and e[3] in ("Lt", "Le", "Gt", "Ge"):
+                    cmp_ops.setdefault(e[1], set()).update(lib.TOK.findall(lib._norm(e[2])))
+        for i, e in casts:
+            n += 1
+            toks = lib.TOK.findall(e[6])
+            org = set()
+            for t in toks:
+                org |= c07._origins(fn, t, maps)
+            roots = {o for o in org if not (maps[0].get(o) or maps[1].get(o))}
+            small = any(re.search(r"f64::\{impl f64\}::sqrt$|::sqrt$", maps[2][o.split(".")[0]]["callee"])
+                        for o in org if o.split(".")[0] in maps[2])
+            guarded = small
+            if not guarded:
+                for sb in dom[i]:
+                    blk = fn.blocks[sb]
+                    if blk["k"] != "switch" or blk["on"] != "bool":
+                        continue
+                    loc = re.match(r"_\d+", blk.get("place", "").strip("()*"))
+                    if not loc:
+                        continue
+                    conds = [loc.group(0)] + [x for x in c07._origins(fn, loc.group(0), maps) if x in cmp_ops]
+                    for c_ in conds:
+                        for t in cmp_ops.get(c_, ()):
+                            co = c07._origins(fn, t, maps)
+                            # the comparison looks at the float itself, not at its fractional part etc.
+                            through_call = any(o.split(".")[0] in maps[2] and
+                                               re.search(r"::(fract|is_nan|is_finite|is_infinite)$", maps[2][o.split(".")[0]]["callee"])
+                                               for o in co)
+                            if (co & roots) and not through_call:
+                                guarded = True
+                    if guarded:
+                        break
+            R.inst("C10.f", "%s / f64 -> %s cast is range-checked" % (fn.short(), e[3]), guarded,
+                   "%s casts a float to %s (line %s) without first comparing the float with the integer range: `as` saturates, "
+                   "so for |x| >= 2^63 the result is MAX/MIN instead of the exact integer — e.g. (exact 1e19) => "
+                   "9223372036854775807, (even? 1e19) => #false, (= 9223372036854775807 9223372036854775808.0) => #true" % (
+                       fn.short(), e[3], e[4]), fn.loc(e[4]), sample=True)
+    R.floor("C10.f", "float-to-integer casts in script-reachable code", n, 5)
+
+
+NUM_KINDS = ["IntV", "NumV", "Rational", "BigNum", "BigRational"]
+
+
+def both_operands_rule(F, R):
+    from . import pairmatch
+    R.rule("C10.p", "binary numeric operations look at both operands: in every script-reachable function of the numeric surface "
+                    "that matches on a pair of number kinds and produces a number (not a truth value), each arm — for each "
+                    "pair of kinds it serves — extracts the payload of the left AND of the right operand (on the decision path "
+                    "or in the arm body). An arm that never reads one operand's value (`(IntV(l), BigNum(_)) => …`) computes "
+                    "a result that cannot depend on it, which is wrong for quotient/remainder/+/−/×/… on some operand")
+    reach = shared.script_reach(F)
+    n = 0
+    nf = 0
+
+    def uses(fn, tup, blocks):
+        use = {"0": False, "1": False}
+        for b in blocks:
+            for ev in fn.blocks[b]["e"]:
+                if ev[0] == "mv" and " as " in ev[2]:
+                    loc = re.match(r"^\(*\**\(?(_\d+)", ev[2])
+                    if not loc:
+                        continue
+                    srcs = {ev[2]} | set(lib.alias_sources(fn, loc.group(1), depth=3))
+                    for side in "01":
+                        if any(re.search(re.escape(tup) + r"\." + side + r"\b", x) for x in srcs):
+                            use[side] = True
+        return use
+
+    for name, fn in sorted(F.fns.items()):
+        if not re.match(r"steel::(primitives::numbers|steel_vm::primitives|steel_vm::vm)::", name) or name not in reach:
+            continue
+        if fn.d["out"] == "bool" or any(e[1] == "SteelVal" and e[2] == "BoolV" for _, _, e in fn.events("agg")):
+            continue  # comparisons: mixed exact kinds are decided by the canonical-form invariant alone
+        pms = pairmatch.pair_matches(fn)
+        if not pms:
+            continue
+        nf += 1
+        for pm in pms:
+            arms, fall = pm.arms(NUM_KINDS)
+            entries = set(arms)
+            for e, pairs in sorted(arms.items()):
+                region = fn.reachable_from([e], avoid=entries - {e})
+                for (l, r) in pairs:
+                    path = []
+                    pm.arm(l, r, path)
+                    use = uses(fn, pm.tup, set(path) | region)
+                    n += 1
+                    R.inst("C10.p", "%s / (%s, %s) arm reads both operands" % (fn.short(), l, r), use["0"] and use["1"],
+                           "%s: the arm taken for (%s, %s) never extracts the %s operand's payload: its result cannot depend "
+                           "on that operand's value (e.g. quotient of a fixnum by a bignum answered 0 without looking at the "
+                           "bignum is wrong for -2^63 / 2^63)" % (
+                               fn.short(), l, r, "left" if not use["0"] else "right"),
+                           fn.loc(fn.blocks[e].get("line")), sample=(n % 25 == 0))
+    R.floor("C10.p", "pair-of-kinds arms in numeric operations", n, 150)
+    R.floor("C10.p", "numeric functions matching on a pair of kinds", nf, 10)
